@@ -273,6 +273,21 @@ func catalog(p ScenParams) *WSpec {
 			}
 			w.MkDirs = append(w.MkDirs, "abs")
 		}
+	case "absout-mod": // absolute output path AND the command names it through a modifier chain
+		if ps := w.proc("p"); ps != nil {
+			for i := range ps.Outs {
+				ps.Outs[i].Pattern = p.Cwd + "/abs/{i:in|basename}." + ps.Outs[i].Name
+				ps.Outs[i].PhSuffix = "." + ps.Outs[i].Name
+			}
+			w.MkDirs = append(w.MkDirs, "abs")
+		}
+	case "submod": // output in a new sub-directory, named in the command through a modifier chain
+		if ps := w.proc("p"); ps != nil {
+			for i := range ps.Outs {
+				ps.Outs[i].Pattern = "sub/dir/{i:in|basename}." + ps.Outs[i].Name
+				ps.Outs[i].PhSuffix = "." + ps.Outs[i].Name
+			}
+		}
 	case "writeidiom": // the documented Go-function idiom: task.OutIP(..).Write(..)
 		if ps := w.proc("p"); ps != nil {
 			ps.Kind = "func"
@@ -330,8 +345,14 @@ func catalog(p ScenParams) *WSpec {
 				w.Procs[i].Barrier = "b"
 			}
 		}
-	case "recorder":
-		// an ordinary custom process reading every out-port nobody consumes
+	case "barrier-first-last": // the first and the last task of p rendezvous; the ones in between just run
+		if ps := w.proc("p"); ps != nil {
+			ps.Barrier = "b"
+			ps.BarrierOnly = []string{"in0.txt", fmt.Sprintf("in%d.txt", p.Items-1)}
+		}
+	case "recorder", "recorder2":
+		// an ordinary custom process reading every out-port nobody consumes (recorder2: TWO of them on
+		// each such port - a fan-out whose receivers must each see the items in order)
 		n := len(w.Procs)
 		for i := 0; i < n; i++ {
 			ps := w.Procs[i]
@@ -349,6 +370,10 @@ func catalog(p ScenParams) *WSpec {
 					rn := "rec_" + ps.Name + "_" + o.Name
 					w.Procs = append(w.Procs, ProcSpec{Name: rn, Kind: "recorder", Ins: []string{"in"}})
 					w.Edges = append(w.Edges, fe(ps.Name, o.Name, rn, "in"))
+					if p.Extra == "recorder2" {
+						w.Procs = append(w.Procs, ProcSpec{Name: rn + "_b", Kind: "recorder", Ins: []string{"in"}})
+						w.Edges = append(w.Edges, fe(ps.Name, o.Name, rn+"_b", "in"))
+					}
 				}
 			}
 		}
